@@ -912,15 +912,18 @@ def from_text(
                 grdata = GenericRdata.from_text(
                     rdclass, rdtype, tok, origin, relativize, relativize_to
                 )
+                # Relativize the names of the decoded rdata as a from_text()
+                # of the type's own syntax would.
+                rel_origin = (relativize_to or origin) if relativize else None
                 rdata = from_wire(
-                    rdclass, rdtype, grdata.data, 0, len(grdata.data), origin
+                    rdclass, rdtype, grdata.data, 0, len(grdata.data), rel_origin
                 )
                 #
                 # If this comparison isn't equal, then there must have been
                 # compressed names in the wire format, which is an error,
                 # there being no reasonable context to decompress with.
                 #
-                rwire = rdata.to_wire()
+                rwire = rdata.to_wire(origin=rel_origin)
                 if rwire != grdata.data:
                     raise dns.exception.SyntaxError(
                         "compressed data in "
